@@ -32,7 +32,9 @@ CONSTANTS
     LAZY,           \* BOOLEAN  lazy mode negotiated
     MaxLoss, MaxDup,\* fault budgets of the network
     MaxQ,           \* bound on the number of queries the client emits
-    MaxTO           \* bound on the number of client timeouts
+    MaxTO,          \* bound on the number of client timeouts
+    PROMPT          \* BOOLEAN: the path is prompt and in-order: a client timeout fires only when no datagram is
+                    \* in flight, and datagrams of one direction are delivered in the order they were sent
 
 VARIABLES
     C,              \* client state record (static variables of client.c)
@@ -43,9 +45,10 @@ VARIABLES
     accS, accC,     \* sequences of packets ACCEPTED from the client / server tun (not discarded)
     loss, dup, tos, \* budgets used so far
     rcvd, answd,    \* ghost: bags of <<id, nm, cs>> the server received / answered
+    aser,           \* number of answers emitted so far (emission order of answers, field ser)
     lastact         \* ghost: name of the last action (for readable counterexamples)
 
-vars == <<C, S, netQ, netA, upNext, dnNext, tunS, tunC, accS, accC, loss, dup, tos, rcvd, answd, lastact>>
+vars == <<C, S, netQ, netA, upNext, dnNext, tunS, tunC, accS, accC, loss, dup, tos, rcvd, answd, aser, lastact>>
 
 -----------------------------------------------------------------------------
 (* packets and units *)
@@ -181,7 +184,7 @@ Send(s, w) ==
         last == has /\ (s1.ooff + n = s1.olen)
         s2 == IF has THEN [s1 EXCEPT !.osent = n, !.resent = @ + 1] ELSE s1
         sl == Slot(s2, w)
-        ans == [id |-> sl.id, nm |-> sl.nm, cs |-> sl.cs, kind |-> sl.kind, illegal |-> FALSE,
+        ans == [id |-> sl.id, nm |-> sl.nm, cs |-> sl.cs, kind |-> sl.kind, illegal |-> FALSE, ser |-> 0,
                 useq |-> s2.iseq, ufrag |-> s2.ifrag % FRAGMOD, dseq |-> s2.oseq,
                 dfrag |-> s2.ofrag % FRAGMOD, last |-> last,
                 units |-> IF has THEN SubSeq(Image(s2.opkt), s2.ooff + 1, s2.ooff + n) ELSE <<>>]
@@ -211,7 +214,7 @@ CachedAns(s, m) == LET i == CHOOSE i \in 1..Len(s.cache) :
                                     (s.cache[j].nm = m.nm /\ s.cache[j].cs = m.cs) => j <= i
                    IN [s.cache[i].ans EXCEPT !.id = m.id]
 InRing(r, x) == \E i \in 1..Len(r) : r[i] = x
-Illegal(m) == [id |-> m.id, nm |-> m.nm, cs |-> m.cs, kind |-> m.kind, illegal |-> TRUE,
+Illegal(m) == [id |-> m.id, nm |-> m.nm, cs |-> m.cs, kind |-> m.kind, illegal |-> TRUE, ser |-> 0,
                useq |-> 0, ufrag |-> 0, dseq |-> 0, dfrag |-> 0, last |-> FALSE, units |-> <<>>]
 NewQ(m) == [id |-> m.id, id2 |-> 0, nm |-> m.nm, cs |-> m.cs, kind |-> m.kind]
 SameName(sl, m) == sl.id # 0 /\ sl.nm = m.nm /\ sl.cs = m.cs
@@ -294,7 +297,7 @@ Init ==
     /\ upNext = 1 /\ dnNext = 1
     /\ tunS = <<>> /\ tunC = <<>> /\ accS = <<>> /\ accC = <<>>
     /\ loss = 0 /\ dup = 0 /\ tos = 0
-    /\ rcvd = EmptyBag /\ answd = EmptyBag
+    /\ rcvd = EmptyBag /\ answd = EmptyBag /\ aser = 0
     /\ lastact = "init"
 
 SeqToSet(s) == {s[i] : i \in 1..Len(s)}
@@ -308,12 +311,13 @@ CliCommit(c) ==
     /\ C' = [c EXCEPT !.outbox = <<>>, !.tunw = <<>>]
     /\ netQ' = netQ \cup SeqToSet(c.outbox)
     /\ tunC' = tunC \o c.tunw
-    /\ UNCHANGED <<S, tunS, dnNext, accC, rcvd, answd>>
+    /\ UNCHANGED <<S, tunS, dnNext, accC, rcvd, answd, aser>>
 
 \* commit the effects of a server step (handler already followed by the sweep)
 SrvCommit(s) ==
     /\ S' = [s EXCEPT !.outbox = <<>>, !.tunw = <<>>]
-    /\ netA' = netA \cup SeqToSet(s.outbox)
+    /\ netA' = netA \cup {[s.outbox[i] EXCEPT !.ser = aser + i] : i \in 1..Len(s.outbox)}
+    /\ aser' = aser + Len(s.outbox)
     /\ tunS' = tunS \o s.tunw
     /\ answd' = answd (+) AnsBag(s.outbox)
     /\ UNCHANGED <<C, tunC, upNext, accS>>
@@ -333,6 +337,7 @@ ACliTun ==
 
 ACliRecv(a, keep) ==
     /\ a \in netA /\ CanEmit
+    /\ PROMPT => \A b \in netA : a.ser <= b.ser
     /\ CliCommit(CliRecv(C, a))
     /\ netA' = IF keep THEN netA ELSE netA \ {a}
     /\ dup' = IF keep THEN dup + 1 ELSE dup
@@ -341,6 +346,7 @@ ACliRecv(a, keep) ==
 
 ACliTimeout ==
     /\ tos < MaxTO /\ CanEmit
+    /\ PROMPT => (netQ = {} /\ netA = {})
     /\ CliCommit(CliTimeout(C))
     /\ tos' = tos + 1
     /\ lastact' = "CliTimeout"
@@ -349,6 +355,7 @@ ACliTimeout ==
 \* --- server actions
 ASrvRecv(m, keep, newid, flip) ==
     /\ m \in netQ
+    /\ PROMPT => \A b \in netQ : m.id <= b.id
     /\ LET m1 == [m EXCEPT !.id = IF newid THEN 1000 + dup ELSE @, !.cs = IF flip THEN 1 - @ ELSE @]
            s0 == Begin(S)
            s1 == IF m1.kind = "ping" THEN SrvPing(s0, m1) ELSE SrvData(s0, m1)
@@ -379,10 +386,10 @@ ASrvTick ==
 \* --- network faults
 ADropQ(m) == /\ m \in netQ /\ loss < MaxLoss
              /\ netQ' = netQ \ {m} /\ loss' = loss + 1 /\ lastact' = "DropQ"
-             /\ UNCHANGED <<C, S, netA, upNext, dnNext, tunS, tunC, accS, accC, dup, tos, rcvd, answd>>
+             /\ UNCHANGED <<C, S, netA, upNext, dnNext, tunS, tunC, accS, accC, dup, tos, rcvd, answd, aser>>
 ADropA(a) == /\ a \in netA /\ loss < MaxLoss
              /\ netA' = netA \ {a} /\ loss' = loss + 1 /\ lastact' = "DropA"
-             /\ UNCHANGED <<C, S, netQ, upNext, dnNext, tunS, tunC, accS, accC, dup, tos, rcvd, answd>>
+             /\ UNCHANGED <<C, S, netQ, upNext, dnNext, tunS, tunC, accS, accC, dup, tos, rcvd, answd, aser>>
 
 Next ==
     \/ ACliTun \/ ACliTimeout
@@ -410,6 +417,12 @@ Integrity == /\ \A i \in 1..Len(tunS) : \E j \in 1..Len(accS) : tunS[i] = accS[j
 
 \* C02 (safety half): accepted packets are written at most once and in the order accepted
 InOrderOnce == IsSubSeqNoRepeat(tunS, accS) /\ IsSubSeqNoRepeat(tunC, accC)
+
+\* C02 (no silent loss on a clean path): when everything offered has been read, nobody is sending and the
+\* network is quiet, every accepted packet has been written (use with MaxLoss = 0, MaxDup = 0)
+Quiet == /\ netQ = {} /\ netA = {} /\ upNext > Len(UpLens) /\ dnNext > Len(DnLens)
+         /\ ~Sending(C) /\ S.olen = 0 /\ S.outq = <<>> /\ C.ibuf = <<>> /\ S.ibuf = <<>>
+DoneDelivered == Quiet => (tunS = accS /\ tunC = accC)
 
 \* C14: every answer consumes a distinct received query with the same id and question
 NoSurplus == answd \sqsubseteq rcvd
